@@ -46,11 +46,13 @@ def main():
         tests_ok = rc_t == 0 and "36 passed" in o_t
         rc_d1, o_d1 = sh([PY, demo], cwd=out, env=env, timeout=900)
         sh(["git", "-C", wt, "checkout", "--", "."])
+        sh(["git", "-C", wt, "clean", "-fdq", "src", "tests"])
         rc_d0, o_d0 = sh([PY, demo], cwd=out, env=env, timeout=900)
         res.update(tests_pass_with_change=tests_ok, tests_tail=o_t.strip().split("\n")[-1], demo_exit_with_change=rc_d1,
                    demo_exit_without_change=rc_d0)
         res["confirmed"] = bool(tests_ok and rc_d1 == 0 and rc_d0 == 0)
     sh(["git", "-C", wt, "checkout", "--", "."])
+    sh(["git", "-C", wt, "clean", "-fdq", "src", "tests"])
     # ---- run the check against it
     if res.get("confirmed"):
         rc, o = sh(["git", "-C", "/repo", "status", "--short"])
@@ -83,6 +85,7 @@ def main():
                             pass
         finally:
             sh(["git", "-C", "/repo", "checkout", "--", "."])
+            sh(["git", "-C", "/repo", "clean", "-fdq", "src", "tests"])
         rc, o = sh(["git", "-C", "/repo", "status", "--short"])
         assert not o.strip(), "repo not restored: " + o
     dst = os.path.join(VERIF, "seeded", mid)
